@@ -83,7 +83,8 @@ inductive CP where
   | panic
 deriving Repr, DecidableEq
 
-/-- `completePack` (after the D11 repair: package number 0 is ignored like a number beyond the total) -/
+/-- `completePack` (after the D11 repair: package number 0 is ignored like a number beyond the total; after the D28
+repair: so is a package that announces another total than the transfer under way) -/
 def completePack (now : Nat) (recs : List Transfer) (m : PMsg) : List Transfer Ã— CP :=
   let sum := m.h.sum
   if sum = 0 then (recs, .none) else
@@ -93,7 +94,7 @@ def completePack (now : Nat) (recs : List Transfer) (m : PMsg) : List Transfer Ã
   match findRec recs1 id with
   | none => (recs1, .none)
   | some t =>
-    if seq = 0 âˆ¨ seq > t.slots.length then (recs1, .none) else
+    if seq = 0 âˆ¨ seq > t.slots.length âˆ¨ sum â‰  t.slots.length then (recs1, .none) else
     let slots := t.slots.set (seq - 1) m.body
     let t' := { t with slots := slots, update := now }
     let received := (slots.filter (fun s => !s.isEmpty)).length
